@@ -647,7 +647,7 @@ func (f *Frame) makeSlice(in *ssa.MakeSlice) {
 	if isLeafElem(st.Elem()) {
 		key := "E|" + typeKey(st.Elem())
 		g.ensureKey(key, g.sortOf(st.Elem()))
-		f.cur.set(key, app("store", f.cur.get(key), pn, fmt.Sprintf("((as const (Array %s %s)) %s)", g.idxSort(), g.sortOf(st.Elem()), g.zero(st.Elem()).S)))
+		f.cur.set(key, app("store", f.cur.get(key), pn, fmt.Sprintf("((as const (Array %s %s)) %s)", g.idxSort(), g.sortOf(st.Elem()), constValue(g.zero(st.Elem()).S))))
 	} else {
 		g.note("make([]struct) zero-initialisation is not modelled")
 	}
@@ -833,7 +833,10 @@ func (f *Frame) siteObligs(in *ssa.Call) {
 		for i, a := range in.Common().Args {
 			env.bind[fmt.Sprintf("arg%d", i)] = f.val(a)
 		}
-		goal := env.trBool(sc.E)
+		goal, inScope := trySiteGoal(env, sc.E)
+		if !inScope {
+			continue // a variable of the clause is not in scope at this site: the clause does not apply here
+		}
 		g.siteSeq[sc.Label]++
 		g.addOblig(&Oblig{Name: f.obName("site", &Clause{Label: fmt.Sprintf("%s.%d", sc.Label, g.siteSeq[sc.Label])}, 0), Kind: "site",
 			Goal: implies(f.curReach, goal), Pos: f.pos(in.Pos()), Text: sc.Pattern + " requires " + sc.Text,
@@ -870,11 +873,29 @@ func (f *Frame) siteStoreObligs(in *ssa.Store) {
 		env.upTo = f.instrIdx[in]
 		env.bind["value"] = f.val(in.Val)
 		env.bind["target"] = f.val(fa.X)
-		goal := env.trBool(sc.E)
+		goal, inScope := trySiteGoal(env, sc.E)
+		if !inScope {
+			continue
+		}
 		g.siteSeq[sc.Label]++
 		g.addOblig(&Oblig{Name: f.obName("site", &Clause{Label: fmt.Sprintf("%s.%d", sc.Label, g.siteSeq[sc.Label])}, 0), Kind: "site",
 			Goal: implies(f.curReach, goal), Pos: f.pos(in.Pos()), Text: sc.Pattern + " requires " + sc.Text,
 			ReplayTemplate: g.FC.Opts["scenario"], ReplayPkgDir: strings.TrimPrefix(strings.TrimPrefix(g.FC.Pkg, modPath), "/")})
 		g.siteHits[sc.Label]++
 	}
+}
+
+// trySiteGoal translates a site clause; an identifier that is not in scope at the site makes the clause
+// inapplicable there (a clause that applies nowhere is reported as stale by the caller).
+func trySiteGoal(env *Env, e Expr) (goal string, ok bool) {
+	defer func() {
+		if r := recover(); r != nil {
+			if se, isSpec := r.(specError); isSpec && strings.HasPrefix(se.msg, "unknown identifier") {
+				goal, ok = "", false
+				return
+			}
+			panic(r)
+		}
+	}()
+	return env.trBool(e), true
 }
